@@ -384,19 +384,28 @@ def advance (phase : String) : List Stmt → Env → Option (Env × Option ArgEx
   | .call n a :: rest, e => if n = phase then some (e, a, rest) else advance phase rest e
   | s :: rest, e => advance phase rest (execEngineStmt e s)
 
+/-- successive phases of one tick -/
+def advanceMany : List String → List Stmt → Env → Option (Env × List Stmt)
+  | [], st, e => some (e, st)
+  | p :: ps, st, e =>
+    match advance p st e with
+    | none => none
+    | some (e', _, rest) => advanceMany ps rest e'
+
 /-- run up to the bulk stamp of the first tick -/
 def advanceStamp : List Stmt → Env → Option (Env × ArgExpr × List Stmt)
   | [], _ => none
   | .stamp rhs :: rest, e => some (e, rhs, rest)
   | s :: rest, e => advanceStamp rest (execEngineStmt e s)
 
-/-- entering `PInterpreter.tick(<arg>)`: the callee's parameter is the argument; its leading assignments set the
-    interpreter's own field -/
-def enterInterp (stmts : List Stmt) (e : Env) (arg : Time) : Env :=
-  let rec go : List Stmt → Env → Env
-    | .assign _ rhs :: rest, e' => go rest { e' with interpField := evalArg { e' with param := arg } 0 0 rhs }
-    | _, e' => e'
-  go stmts e
+/-- one statement of `tick_iterate_subticks(arg, …)`: an assignment sets the interpreter's own field -/
+def execInterpStmt (arg : Time) (e : Env) : Stmt → Env
+  | .assign _ rhs => { e with interpField := evalArg { e with param := arg } 0 0 rhs }
+  | _ => e
+
+/-- entering `PInterpreter.tick(<arg>)`: the callee's parameter is the argument; the environment when the
+    generators are stepped -/
+def enterInterp (stmts : List Stmt) (e : Env) (arg : Time) : Env := stmts.foldl (execInterpStmt arg) e
 
 /-- start of `Engine.tick(t, …)`: parameter bound, tick number incremented; the wall clock reads `wall` -/
 def Env.enterTick (e : Env) (t wall : Time) : Env :=
@@ -412,10 +421,13 @@ def freshOK : Bool → List Stmt → Bool
     (structuralCall n || f) &&
     (!timeCallee n || a = some .param || (a = some .engineField && f)) && freshOK f rest
 
-/-- `tick_iterate_subticks`: the first statement assigns the field from the parameter, before any generator is
-    stepped -/
+/-- `tick_iterate_subticks`: the first statement assigns the field from the parameter (before any generator is
+    stepped) and no later statement assigns it anything else -/
 def interpOK : List Stmt → Bool
-  | .assign _ .param :: _ => true
+  | .assign _ .param :: rest =>
+    rest.all fun s => match s with
+      | .assign _ rhs => rhs = .param
+      | _ => true
   | _ => false
 
 end OPM.Tags
